@@ -105,7 +105,7 @@ int main (void)
     char *items = strtok_r (NULL, " \n", &sv);
     cur_s = 100; cur_us = 0; nsends = ndone_sig = 0; failmask = 0; memset (cur_len, 0, sizeof cur_len); memset (old_len, 0, sizeof old_len);
     ag = nice_agent_new (g_main_context_default (), NICE_COMPATIBILITY_RFC5245);
-    g_object_set (ag, "stun-initial-timeout", T, "stun-max-retransmissions", N, "upnp", FALSE, "ice-tcp", FALSE, NULL);
+    g_object_set (ag, "upnp", FALSE, "ice-tcp", FALSE, NULL); ag->stun_initial_timeout = T; ag->stun_max_retransmissions = N;   /* set directly: the properties clamp to 20..9999 / 1..99 */
     g_signal_connect (ag, "candidate-gathering-done", G_CALLBACK (on_done), NULL);
     guint sid[3]; sid[1] = nice_agent_add_stream (ag, 1); sid[2] = nice_agent_add_stream (ag, 1);
     NiceStream *st[3]; NiceComponent *cm[3]; NiceSocket *sock[3]; TurnServer *turn[3][10]; memset (turn, 0, sizeof turn);
